@@ -1,3 +1,43 @@
-(** placeholder *)
-From Xds Require Import Model.ConcCheck.
-Theorem C06_placeholder : True. Proof. exact I. Qed.
+(** C06 — No lost wake-ups: a resource accepted before the deadline is returned.
+    Statements only; proofs are [exact] of lemmas in Proofs/ConcProofs.v.
+    [h] ranges over ALL schedules: any number of other callers for the same or other names may
+    have arrived, shared the notifier, timed out or been cancelled in [h]. *)
+From Xds Require Import Model.Base Model.Conc Proofs.ConcProofs.
+Open Scope N_scope.
+
+(** The invariant that carries it: after every schedule, every waiting lookup's notifier is either
+    already closed or is THE registered notifier of its key, the registered notifier's waiter count
+    is exactly the number of lookups waiting on it, and notifier identities are unique. *)
+Theorem C06_invariant : forall h, inv (crun h).
+Proof. exact crun_inv. Qed.
+Print Assumptions C06_invariant.
+
+(** Whenever a response carrying a name is accepted, every lookup of that name that is waiting at
+    that moment returns that resource by its own next step alone: no deadline has to fire. *)
+Theorem C06_no_lost_wakeup : forall h full up scope t th nid v,
+  let s := crun (h ++ [EDeliver full up scope]) in
+  kget t (c_threads s) = Some th -> th_st th = TWaiting nid -> kget (th_key th) (rev up) = Some v ->
+  enabled s (EWake t) = true /\ thread_result (cstep s (EWake t)) t = Some (RVal v).
+Proof. exact no_lost_wakeup. Qed.
+Print Assumptions C06_no_lost_wakeup.
+
+(** A lookup that had missed the cache but not yet registered when the response was accepted finds
+    the resource under the lock instead of registering a notifier nobody would close. *)
+Theorem C06_late_registrant_served : forall h full up scope t th v,
+  let s := crun (h ++ [EDeliver full up scope]) in
+  kget t (c_threads s) = Some th -> th_st th = TMissed -> kget (th_key th) (rev up) = Some v ->
+  enabled s (EStep t) = true /\ thread_result (cstep s (EStep t)) t = Some (RVal v).
+Proof. exact late_registrant_served. Qed.
+Print Assumptions C06_late_registrant_served.
+
+(** One caller's timeout affects only that caller: it preserves the invariant for everybody else
+    (in particular it cannot remove a notifier that other lookups still wait on). *)
+Theorem C06_timeouts_are_local : forall s t, inv s -> inv (cstep s (ETimeout t)).
+Proof. exact (fun s t => cstep_inv s (ETimeout t)). Qed.
+Print Assumptions C06_timeouts_are_local.
+
+Example C06_example :
+  let h := [EInvoke 0 7; EInvoke 1 7; EStep 0; EStep 1; EFire 0; ETimeout 0; EDeliver true [(7, 42)] [7]] in
+  thread_result (crun h) 0 = Some RErr /\ thread_result (crun (h ++ [EWake 1])) 1 = Some (RVal 42) /\
+  thread_result (crun [EInvoke 0 7; EDeliver true [(7, 42)] [7]; EStep 0]) 0 = Some (RVal 42).
+Proof. exact C06_example_proof. Qed.
